@@ -13,6 +13,7 @@ import (
 	"net/http/httptest"
 	"net/url"
 	"os"
+	"runtime"
 	"sort"
 	"strconv"
 	"strings"
@@ -154,9 +155,20 @@ func TestVerifDriver(t *testing.T) {
 				heldSess.srv.Close()
 				heldSess = nil
 			}
-			var sres string
-			heldSess, sres = newSess(w[1])
-			res = sres
+			if sessProcs > 0 {
+				runtime.GOMAXPROCS(sessProcs)
+				sessProcs = 0
+			}
+			if w[1] == "-" {
+				res = "ok" // end of the session
+			} else {
+				// one scheduler thread for the length of the session: whatever a middleware keeps per
+				// thread (sync.Pool) is then seen by every exchange, as it is sooner or later in production
+				sessProcs = runtime.GOMAXPROCS(1)
+				var sres string
+				heldSess, sres = newSess(w[1])
+				res = sres
+			}
 		} else if len(w) == 2 && w[0] == "bc" {
 			res = buildOnly(w[1])
 		}
@@ -178,6 +190,7 @@ type rwSess struct {
 }
 
 var heldSess *rwSess
+var sessProcs int
 
 func newSess(spec string) (*rwSess, string) {
 	pc, err := parseChain(spec)
